@@ -355,6 +355,31 @@ func c17Cases(c runCfg) ([]*scratch.Pkg, []string, map[string]interface{}) {
 	var pkgs []*scratch.Pkg
 	var lines []string
 	nreq := 0
+	// overlap family (both tiers): a literal path without an OPTIONS operation of its own (it gets the preflight entry) next to a
+	// templated path that matches the same request and DECLARES OPTIONS, at every depth and with a trailing slash; requested with
+	// and without a CORS handler: the preflight entry answers (or is not found), the templated operation never does
+	overlaps := [][2]string{{"/a", "/{p1}"}, {"/a/b", "/{p1}/b"}, {"/a/b", "/a/{p2}"}, {"/a/b", "/{p1}/{p2}"}, {"/a/", "/{p1}/{p2}"},
+		{"/a/b/c", "/{p1}/b/c"}, {"/a/b/c", "/a/{p2}/c"}, {"/a/b/c", "/a/b/{p3}"}, {"/a/b/", "/a/{p2}/{p3}"}, {"/", "/{p1}"}}
+	for oi, ov := range overlaps {
+		sp := &dialect.Spec{Schemes: []dialect.Scheme{schemeFor("A", "keyheader"), schemeFor("B", "bearer"), schemeFor("C", "keyquery")}}
+		lit := &dialect.PathItem{Raw: ov[0], Ops: []*dialect.Op{{Method: "GET", Responses: []dialect.Response{{Status: "200"}}}}}
+		tpl := &dialect.PathItem{Raw: ov[1], Params: pathParams(ov[1]), Ops: []*dialect.Op{
+			{Method: "OPTIONS", Responses: []dialect.Response{{Status: "200"}}}, {Method: "POST", Responses: []dialect.Response{{Status: "200"}}}}}
+		sp.Paths = []*dialect.PathItem{lit, tpl}
+		rc := rcase{Pkg: fmt.Sprintf("v%04d", oi), Spec: sp, Cors: true}
+		p := rc.ScratchPkg()
+		pkgs = append(pkgs, p)
+		lines = append(lines, DLine(p), rc.SLine())
+		for _, ch := range []int{0, 1} {
+			cfg := fmt.Sprintf("mw=1,nf=1,cors=%d,authdflt=any", ch)
+			for _, m := range []string{"OPTIONS", "GET", "POST"} {
+				lines = append(lines, RLine(rc.Pkg, cfg, m, ov[0], nil, ""))
+				nreq++
+			}
+			lines = append(lines, RLine(rc.Pkg, cfg, "OPTIONS", strings.NewReplacer("{p1}", "x", "{p2}", "y", "{p3}", "z").Replace(ov[1]), nil, ""))
+			nreq++
+		}
+	}
 	for i := 0; i < n; i++ {
 		sp := &dialect.Spec{Schemes: []dialect.Scheme{schemeFor("A", "keyheader"), schemeFor("B", "bearer"), schemeFor("C", "keyquery")}}
 		if i%4 == 0 {
